@@ -16,6 +16,9 @@ predictor applied to the newest received input (the default input if there is no
 only grows, so a value once received for a frame is never replaced.
 -/
 import GgrsModel.Model.Inventory
+import GgrsModel.Model.Sites.InputQueue
+import GgrsModel.Model.Sites.SyncLayer
+import GgrsModel.Model.Sites.P2pSession
 import GgrsModel.Model.P2P
 import GgrsModel.Proofs.Monad
 import GgrsModel.Proofs.Predict
